@@ -337,6 +337,18 @@ def gen_random(g, F, rng, count):
         b = rng.randrange(p)
         if rng.random() < 0.1:
             a = rng.choice((0, 1, p - 1, F.Rm, a >> rng.randrange(F.bits)))
+        elif rng.random() < 0.2:
+            # internal representations made of extreme words (all ones, single bits, half words): maximal partial products and carries in
+            # every multiplication variant (64- and 32-bit words, Karatsuba-style recombinations)
+            def sw():
+                v = 0
+                nw = F.bits // 32
+                for k in range(nw - 1):
+                    v |= (rng.choice([0, 1, 0xffffffff, 0xfffffffe, 0x80000000, 0x7fffffff, 0xffff, 0x10000]) if rng.random() < 0.75 else rng.getrandbits(32)) << (32 * k)
+                ptop = p >> (F.bits - 32)
+                v |= rng.choice([0, 1, 0xffff, 0x10000, ptop - 1, rng.randrange(ptop)]) << (F.bits - 32)      # stays below p without reduction
+                return v
+            a, b = sw(), sw()
         if op in ('add', 'sub', 'mul'):
             g.add('%s.%s %s %s' % (n, op, T(a), T(b)), op, F, a, b)
         elif op in ('sqr', 'dbl', 'neg', 'inv', 'get', 'leg', 'mont', 'wr'):
@@ -621,7 +633,7 @@ REQUIRED = [
 def run(ctx):
     import random
     O.selftest(random.Random(ctx.seed))
-    cfgs = ['prod', 'san'] if ctx.quick else ['prod', 'san', 'p64', 'p32', 'x86base', 'p32-san']
+    cfgs = ['prod', 'san', 'p32'] if ctx.quick else ['prod', 'san', 'p64', 'p32', 'x86base', 'p32-san']
     specs = {c: (c if c != 'x86base' else 'prod', 'opdrv.cpp', ['--x86base'] if c == 'x86base' else []) for c in cfgs}
     exes = session.build_exes(specs)
     session.run_shards(ctx, worker, 16, exes, {'cfgs': cfgs})
